@@ -168,195 +168,10 @@ class Chain:
         sc.frames.append(fr)
         return sc
 
-    # -- keyword tests -------------------------------------------------------------------------------------------
-    def kw_items(self, sc, test):
-        """(items, further conjuncts) of a test whose first conjunct tests the keyword, else None"""
-        first, rest = test, []
-        if isinstance(test, ast.BoolOp) and isinstance(test.op, ast.And):
-            first, rest = test.values[0], test.values[1:]
-        parts = first.values if isinstance(first, ast.BoolOp) and isinstance(first.op, ast.Or) else [first]
-        items = []
-        sc.muted += 1
-        try:
-            for p in parts:
-                av = sc.ev(p, ([], [], 0))
-                if not isinstance(av, KwTest) or av.negated:
-                    return None
-                items += av.items
-        finally:
-            sc.muted -= 1
-        return items, rest
-
-    def arms_of(self, sc, st):
-        """[(items | None for else, further conjuncts, body)] of an if/elif chain or a match on the keyword, or None"""
-        if isinstance(st, ast.If):
-            arms = []
-            node = st
-            while True:
-                ki = self.kw_items(sc, node.test)
-                if ki is None:
-                    if not arms:
-                        return None
-                    self.lost.append(f'_parse_cards: test not understood: {ast.unparse(node.test)[:60]}')
-                    ki = ([], [])
-                arms.append((ki[0], ki[1], node.body))
-                if len(node.orelse) == 1 and isinstance(node.orelse[0], ast.If):
-                    node = node.orelse[0]
-                    continue
-                if node.orelse:
-                    arms.append((None, [], node.orelse))
-                return arms
-        if isinstance(st, ast.Match):
-            sc.muted += 1
-            subj = sc.ev(st.subject, ([], [], 0))
-            sc.muted -= 1
-            if type(subj).__name__ != 'Word':
-                return None
-            arms = []
-            for case in st.cases:
-                keys = self.match_keys(sc, case.pattern)
-                if keys is False:
-                    self.lost.append(f'_parse_cards: case not understood: {ast.unparse(case.pattern)[:60]}')
-                    keys = []
-                rest = [case.guard] if case.guard is not None else []
-                arms.append((None if keys is None else [('word', k) for k in keys], rest, case.body))
-            return arms
-        return None
-
-    def match_keys(self, sc, pat):
-        if isinstance(pat, ast.MatchValue):
-            try:
-                v = sc.ceval(pat.value)
-            except NotConst:
-                return False
-            return [v] if isinstance(v, str) else False
-        if isinstance(pat, ast.MatchOr):
-            out = []
-            for p in pat.patterns:
-                k = self.match_keys(sc, p)
-                if not k:
-                    return False
-                out += k
-            return out
-        if isinstance(pat, ast.MatchAs) and pat.pattern is None:
-            return None
-        return False
-
-    @staticmethod
-    def norm_item(it):
-        kind, s = it
-        if kind == 'starts' and len(s) >= 4:
-            return ('word', s[:4])
-        return (kind, s)
-
-    @staticmethod
-    def item_matches(it, key):
-        """does the arm item hold for a line whose keyword is `key`?"""
-        if key[0] in ('atom', 'else'):
-            return it[0] == key[0]
-        if it[0] == 'atom':
-            return False
-        if it[1] == key[1]:
-            return True
-        return it[0] == 'starts' and key[1].startswith(it[1])
-
-    # -- one pass over the loop body for one keyword ----------------------------------------------------------------
-    def has_chain(self, fn):
-        n = 0
-        for x in ast.walk(fn):
-            if isinstance(x, (ast.If, ast.Match)):
-                t = x.test if isinstance(x, ast.If) else x.subject
-                for c in ast.walk(x if isinstance(x, ast.Match) else t):
-                    if isinstance(c, ast.Constant) and isinstance(c.value, str) and 3 <= len(c.value) <= 4 and c.value.upper() == c.value \
-                            and c.value.strip().isalnum():
-                        n += 1
-        return n >= 8
-
-    def run_block(self, sc, stmts, key, keys_seen, g):
-        """walk the statements for a line with keyword `key`; collects the keys that occur (keys_seen)"""
-        for st in stmts:
-            arms = self.arms_of(sc, st) if isinstance(st, (ast.If, ast.Match)) else None
-            if arms is not None:
-                hit = None
-                for items, rest, body in arms:
-                    if items is not None:
-                        for it in items:
-                            k = self.norm_item(it)
-                            if k not in keys_seen:
-                                keys_seen.append(k)
-                    if hit is None and (items is None or any(self.item_matches(it, key) for it in items)):
-                        if items is None and key[0] != 'else' and ('else',) not in keys_seen:
-                            pass
-                        hit = (items, rest, body)
-                if hit is None:
-                    continue
-                items, rest, body = hit
-                if items is None and ('else', '') not in keys_seen:
-                    keys_seen.append(('else', ''))
-                gg = g
-                if rest:
-                    self.lost.append(f'_parse_cards: keyword test with a further condition: {ast.unparse(st.test)[:60] if isinstance(st, ast.If) else "case guard"}')
-                    for r in rest:
-                        f = sc.test(r, gg)
-                        alts = xdnf(f)
-                        gg = sc.with_conds(gg, alts[0] if alts else [Cond('opaque', 'never')])
-                saved_word = dict(sc.fr.env)
-                if key[0] == 'word':
-                    for nm, av in list(sc.fr.env.items()):
-                        if type(av).__name__ == 'Word':
-                            sc.fr.env[nm] = Const(key[1])
-                n_before = len(sc.steps)
-                sc.walk(body, gg)
-                for nm, av in saved_word.items():
-                    if type(av).__name__ == 'Word':
-                        sc.fr.env[nm] = av
-                if any(s_[3] == '.stop' and not s_[0] for s_ in sc.steps[n_before:]) and not g[0]:
-                    return True          # `continue`: the rest of the loop body is not reached for this keyword
-                continue
-            # the loop body moved into a helper method: go on inside it
-            call = None
-            if isinstance(st, (ast.Expr, ast.Return)) and isinstance(st.value, ast.Call):
-                call = st.value
-            elif isinstance(st, ast.Assign) and isinstance(st.value, ast.Call):
-                call = st.value
-            if call is not None and isinstance(call.func, ast.Attribute) and isinstance(call.func.value, ast.Name) and call.func.value.id == 'self':
-                r, fn = self.prog.method(self.cls, call.func.attr)
-                if fn is not None and fn is not self.fn and self.has_chain(fn) and fn not in sc.stack:
-                    args, kw = sc.args_of(call, g)
-                    fr = R.Frame(fn, self.prog.module(r.mod), sc.fr.selfav, top=True)
-                    fr.owner = r
-                    params = [x.arg for x in fn.args.posonlyargs + fn.args.args]
-                    for p_, v in zip(params, [sc.fr.selfav] + args):
-                        fr.env[p_] = v
-                    for p_ in params[len(args) + 1:]:
-                        fr.env[p_] = kw.get(p_, Unk())
-                    if self.statevar and not self.statevar.startswith('self.'):
-                        # a local state variable handed to a helper does not come back: not readable
-                        self.lost.append('_parse_cards: the loop body lives in a helper but the state variable is a local')
-                    sc.frames.append(fr)
-                    sc.stack.append(fn)
-                    old = sc.return_is_stop
-                    sc.return_is_stop = True
-                    done = self.run_block(sc, fn.body, key, keys_seen, g)
-                    sc.return_is_stop = old
-                    sc.stack.pop()
-                    sc.frames.pop()
-                    if done:
-                        return True
-                    continue
-            # anything else is bookkeeping of the loop (line gluing, splitting, upper-casing): it has to be free of requirements
-            n0 = len(sc.steps)
-            nl = len(sc.lost)
-            sc.stmt(st, g)
-            bad = [s for s in sc.steps[n0:] if not s[3].startswith(('.stop', '.setLast', '.setFlag'))]
-            if bad:
-                self.lost.append(f'_parse_cards: the loop prelude has requirements: {bad[0][3]} ({ast.unparse(st)[:50]})')
-            del sc.steps[n0:]
-            del sc.lost[nl:]
-        return False
-
-    def run_key(self, key, keys_seen):
+    def run_key(self, key):
+        """the whole loop body for a line with keyword `key`: every test of the keyword is decided, everything else is read"""
         sc = self.new_scanner()
+        sc.cur_key = key
         g = ([], [], 0)
         body = self.fn.body
         loop = None
@@ -369,6 +184,8 @@ class Chain:
             for s in sc.steps[n0:]:
                 if s[3].startswith('.setLast') and s[3] != '.setLast ""':
                     self.lost.append(f'_parse_cards: the state variable does not start empty: {s[3]}')
+                elif not s[3].startswith(('.setLast', '.setFlag')):
+                    self.lost.append(f'_parse_cards: requirement in front of the loop: {s[3]}')
             del sc.steps[n0:]
         if loop is None:
             raise ValueError('_parse_cards: no for loop')
@@ -380,9 +197,11 @@ class Chain:
         elif spec[0] == 'other' and type(spec[1]).__name__ == 'ResList':
             sc.bind(tgt, Line(), g, tgt)
         else:
+            self.lost.append('_parse_cards: the loop does not run over the lines of the file')
             sc.bind(tgt, Unk(), g, tgt)
         del sc.steps[:]
-        self.run_block(sc, loop.body, key, keys_seen, g)
+        sc.dead = False
+        sc.walk(loop.body, g)
         return sc
 
 
@@ -461,22 +280,30 @@ def c02_tables(repo: Path, out: Path):
     ch = Chain(prog, prims, shelx_cls, pcf, owner)
     if ch.statevar is None:
         lose('_parse_cards: no variable that remembers the last header keyword found')
-    keys = []
-    ch.run_key(('else', ''), keys)            # first pass: which keywords does the loop test for, in which order
+    first = ch.run_key(('else', ''))          # first pass: which keywords does the loop test for, in which order
     ch.lost = []
-    if ('else', '') not in keys:
-        keys.append(('else', ''))
-    keys = [k for k in keys if k != ('else', '')] + [('else', '')]
+    keys = [k for k in first.kw_seen if k != ('else', '')]
     branches = []           # (key, steps)
     cards_used = []
-    seen_lost = set()
-    for key in keys:
-        sc = ch.run_key(key, [])
-        branches.append((key, sc.steps))
-        cards_used += sc.cards_used
-        for t in sc.lost:
+    done = set()
+    while True:
+        todo = [k for k in keys + [('else', '')] if k not in done]
+        if not todo:
+            break
+        for key in todo:
+            done.add(key)
+            sc = ch.run_key(key)
+            branches.append((key, sc.steps))
+            cards_used += sc.cards_used
             name = {'word': key[1], 'starts': key[1], 'atom': 'is_atom', 'else': 'else'}[key[0]]
-            lose(f'shelx.py branch {name}: not understood: {t}')
+            for t in sc.lost:
+                lose(f'shelx.py branch {name}: not understood: {t}')
+            for k in sc.kw_seen:            # a keyword that is only tested for inside the handler of another one
+                if k not in keys and k != ('else', ''):
+                    keys.append(k)
+    order_of = {k: i for i, k in enumerate(keys + [('else', '')])}
+    branches.sort(key=lambda b: order_of[b[0]])
+    seen_lost = set()
     for t in ch.lost:
         if t not in seen_lost:
             seen_lost.add(t)
